@@ -89,6 +89,10 @@ func (w *WalletManager) constructTxIn(inputs []*TxIn, lockTime uint64) (*wire.Ms
 			return nil, nil, massutil.ZeroAmount(), ErrInvalidParameter
 		}
 
+		if txIn.PreviousOutPoint.Index >= uint32(len(prevTx.TxOut)) {
+			logging.CPrint(logging.ERROR, "output index out of range", logging.LogFormat{"index": txIn.PreviousOutPoint.Index})
+			return nil, nil, massutil.ZeroAmount(), ErrInvalidParameter
+		}
 		prevTxOut := prevTx.TxOut[txIn.PreviousOutPoint.Index]
 		pks, err := utils.ParsePkScript(prevTxOut.PkScript, w.chainParams)
 		if err != nil {
